@@ -108,10 +108,10 @@ def make_state(seed):
     """(scenario dict) a generated definition; S is parsed from it so that carried bodies alias T."""
     ch = Chooser(seed)
     desc = render.gen_desc(ch, "conservative", 1, 4, "d")
-    kind = ch.weighted("kind", [("function", 4), ("method_in_class", 1), ("class", 3), ("argparse", 2)])
+    kind = ch.weighted("kind", [("function", 3), ("method_in_class", 1), ("class", 4), ("argparse", 2)])
     with_ret = ch.chance("ret", 0.5)
-    with_body = ch.chance("body", 0.6)
-    if with_ret and desc["params"] and ch.chance("retexpr", 0.4):
+    with_body = ch.chance("body", 0.6 if kind != "class" else 0.3)
+    if with_ret and desc["params"] and ch.chance("retexpr", 0.6):
         # a compound default expression that names a parameter (emit.class_(emit_call=True) rewrites such names to self.<name>)
         p0 = desc["params"][0]["name"]
         desc["returns"] = {"typ": "int", "doc": "the scaled value", "default": {"code": "%s * 2" % p0}}
@@ -125,7 +125,7 @@ def make_state(seed):
     elif kind == "method_in_class":
         src = render.render_function(desc, "train", ftype="self", body=body)
     elif kind == "class":
-        src = render.render_class(desc, "Config")
+        src = render.render_class(desc, "Config", quote_code=ch.chance("quote_code", 0.7))
         if with_body:
             src += "\n    def __init__(self, extra: int = 1):\n        \"\"\"\n        Construct.\n\n        :param extra: the extra\n        \"\"\"\n        self.extra = extra\n"
     else:
@@ -186,6 +186,39 @@ def explore(state, seq_len=3, sample4=0, only=None):
     ref = {n: ref_one(n, f) for n, f in ops}
     viols = {}
     stats = {"sequences": 0, "calls": 0, "ref_exceptions": sum(1 for v in ref.values() if v.startswith("EXC:"))}
+    # Do the calls leave anything behind in the process (caches, module-level containers)?  If not, a history's result
+    # is a function of the shared (S, T) alone and the prefix tree below is exact.  If they do, every history is executed
+    # from a process in its import-time state (slower, so the length-3 level is sampled instead of enumerated).
+    _fresh()
+    for n, f in ops:
+        S, T = copy.deepcopy((S0, T0))
+        call(f, S, T)
+    hidden = _proc.dirty() if _proc is not None else []
+    _fresh()
+    stats["hidden_process_state"] = 1 if hidden else 0
+
+    def run_seq(seq):
+        _fresh()
+        S, T = copy.deepcopy((S0, T0))
+        stats["sequences"] += 1
+        for k, n in enumerate(seq):
+            got = call(dict(ops)[n], S, T)
+            stats["calls"] += 1
+            if got != ref[n]:
+                culprit = minimal_culprit(ops, S0, T0, list(seq[:k]), n, ref)
+                key = (tuple(culprit), n)
+                if key not in viols:
+                    viols[key] = {"seq": list(seq[: k + 1]), "culprits": culprit, "victim": n, "got": got[:300], "want": ref[n][:300]}
+                return
+
+    if hidden and only is None:
+        for L in (1, 2):
+            for seq in itertools.product(names, repeat=L):
+                run_seq(seq)
+        chh = Chooser(state["seed"]).fork("hidden")
+        for i in range(600):
+            run_seq([chh.choice("h%d.%d" % (i, k), names) for k in range(3 if i % 2 else 4)])
+        return list(viols.values()), stats
 
     def rec(prefix, S, T, depth):
         for n, f in ops:
@@ -249,7 +282,9 @@ def minimal_culprit(ops, S0, T0, prefix, victim, ref):
         S, T = copy.deepcopy((S0, T0))
         call(table[n], S, T)
         if call(table[victim], S, T) != ref[victim]:
+            _fresh()
             return [n]
+    _fresh()
     return list(prefix)
 
 
@@ -286,7 +321,7 @@ def run_check(prop, tier):
     tasks = [{"tid": "a%d" % i, "kind": "explore", "seed": core.run_seed(base, i), "seq_len": 3, "sample4": 40 if tier == "quick" else 200, "want_src": i < 2}
              for i in range(n)]
     results, pstats = core.run_pool("alias", tasks, task_timeout=300.0, budget_s=budget)
-    stats = {"sequences": 0, "calls": 0, "descriptions": 0, "ref_exceptions": 0}
+    stats = {"sequences": 0, "calls": 0, "descriptions": 0, "ref_exceptions": 0, "hidden_process_state": 0}
     kinds = {}
     new = {}
     known_hit = {}
@@ -299,8 +334,8 @@ def run_check(prop, tier):
         if "harness_error" in r:
             raise HarnessError(r["harness_error"])
         stats["descriptions"] += 1
-        for k in ("sequences", "calls", "ref_exceptions"):
-            stats[k] += r["stats"][k]
+        for k in ("sequences", "calls", "ref_exceptions", "hidden_process_state"):
+            stats[k] += r["stats"].get(k, 0)
         st = r["state"]
         cell = "%s|ret=%s|body=%s" % (st["kind"], st["with_ret"], st["with_body"])
         kinds[cell] = kinds.get(cell, 0) + 1
@@ -375,6 +410,7 @@ def run_check(prop, tier):
         "descriptions": stats["descriptions"],
         "calls": stats["calls"],
         "reference_calls_that_raise": stats["ref_exceptions"],
+        "descriptions_where_calls_left_process_state_behind": stats["hidden_process_state"],
         "state_classes": kinds,
         "alphabet": [n for n, _ in _alphabet_names()],
         "exhaustive_for_length_le_3_per_description": True,
